@@ -199,6 +199,7 @@ fn emit<'a, T: Opcode<'a>>(sink: &mut T, toks: &Value, results: &[u32]) {
             "i32.const" => { sink.i32_const(t[1].as_i64().unwrap() as i32); }
             "global.get" => { sink.global_get(GlobalID(resolve(&t[1], results))); }
             "call" => { sink.call(FunctionID(resolve(&t[1], results))); }
+            "return_call" => { sink.inject(wasmparser::Operator::ReturnCall { function_index: resolve(&t[1], results) }); }
             "i32.add" => { sink.i32_add(); }
             "drop" => { sink.drop(); }
             "i32.load" => { sink.i32_load(wasmparser::MemArg { align: 2, max_align: 2, offset: 0, memory: resolve(&t[1], results) }); }
@@ -348,6 +349,7 @@ fn tok(op: &wasmparser::Operator) -> Value {
         O::GlobalGet { global_index } => json!(["global.get", global_index]),
         O::GlobalSet { global_index } => json!(["global.set", global_index]),
         O::Call { function_index } => json!(["call", function_index]),
+        O::ReturnCall { function_index } => json!(["return_call", function_index]),
         O::I32Add => json!(["i32.add"]),
         O::Drop => json!(["drop"]),
         O::End => json!(["end"]),
